@@ -90,6 +90,9 @@ func genConfig(t *rapid.T, scale int, counted bool) Config {
 		Latency: pick(t, "latency", int64(0), 0, 0, 1, 5, 20, 40),
 	}
 	n := rapid.IntRange(1, 3).Draw(t, "shapes")
+	if !counted && rapid.IntRange(0, 9).Draw(t, "no_shapes") == 0 {
+		n = 0 // '{"trafficshape":{}}': clears every shape
+	}
 	pats := rapid.Permutation([]int{0, 1, 2, 3}).Draw(t, "pats")
 	for i := 0; i < n; i++ {
 		c.Shapes = append(c.Shapes, genShape(t, pats[i], scale, counted))
@@ -100,7 +103,7 @@ func genConfig(t *rapid.T, scale int, counted bool) Config {
 var invalidKinds = []string{
 	"neg-up", "neg-down", "neg-latency", "empty-regex", "bad-regex", "neg-maxbw",
 	"thr-zero-bw", "thr-neg-bw", "thr-overlap", "thr-open-not-last", "thr-equal", "thr-reversed", "thr-malformed",
-	"halt-neg-dur", "halt-neg-byte", "halt-zero-count", "close-neg-byte", "close-zero-count",
+	"halt-neg-dur", "halt-neg-byte", "halt-zero-count", "close-neg-byte", "close-zero-count", "halt-neg-count", "close-neg-count",
 	"bad-json", "no-trafficshape", "null-shape", "null-throttle", "null-halt", "null-close", "string-for-number",
 }
 
@@ -110,6 +113,9 @@ func invalidate(t *rapid.T, c Config) (Config, string) {
 	kind := rapid.SampledFrom(invalidKinds).Draw(t, "invalid_kind")
 	out := c
 	out.Shapes = append([]Shape(nil), c.Shapes...)
+	if len(out.Shapes) == 0 {
+		out.Shapes = []Shape{{Pat: 0}}
+	}
 	si := rapid.IntRange(0, len(out.Shapes)-1).Draw(t, "invalid_shape")
 	s := out.Shapes[si]
 	s.Throttles = append([]Throttle(nil), s.Throttles...)
@@ -156,6 +162,10 @@ func invalidate(t *rapid.T, c Config) (Config, string) {
 		s.Closes = append(s.Closes, CloseAct{At: -7, N: 1})
 	case "close-zero-count":
 		s.Closes = append(s.Closes, CloseAct{At: 7, N: 0})
+	case "halt-neg-count":
+		s.Halts = append(s.Halts, Halt{At: 900005, Dur: 1, N: pick(t, "neg_count", int64(-2), -5, -1<<40)})
+	case "close-neg-count":
+		s.Closes = append(s.Closes, CloseAct{At: 900007, N: pick(t, "neg_count", int64(-2), -5, -1<<40)})
 	default:
 		out.Mangle = kind
 	}
@@ -170,11 +180,16 @@ func invalidate(t *rapid.T, c Config) (Config, string) {
 }
 
 // genResp draws a response for a connection accepted under cfg (nil: none).
-func genResp(t *rapid.T, cfg *Config, scale int, e2e bool) Resp {
+// retired: shapes of earlier configurations whose pattern the connection's configuration no
+// longer names: a response on such a URL is aimed at their offsets and must be left alone.
+func genResp(t *rapid.T, cfg *Config, scale int, e2e bool, retired ...Shape) Resp {
 	r := Resp{Seed: rapid.Uint64Range(1, 1<<30).Draw(t, "seed")}
 	var shape *Shape
 	k := rapid.IntRange(0, 9).Draw(t, "url_kind")
 	switch {
+	case len(retired) > 0 && k >= 6:
+		shape = &retired[rapid.IntRange(0, len(retired)-1).Draw(t, "retired_shape")]
+		r.Pat = shape.Pat
 	case cfg != nil && len(cfg.Shapes) > 0 && k < 8:
 		shape = &cfg.Shapes[rapid.IntRange(0, len(cfg.Shapes)-1).Draw(t, "shape")]
 		r.Pat = shape.Pat
@@ -228,6 +243,11 @@ func genResp(t *rapid.T, cfg *Config, scale int, e2e bool) Resp {
 			}
 		}
 		r.ReqClose = rapid.IntRange(0, 3).Draw(t, "req_close") == 0
+		r.OClose = rapid.IntRange(0, 7).Draw(t, "origin_close") == 0
+		if rapid.IntRange(0, 7).Draw(t, "odd_content_range") == 0 {
+			r.CR = rapid.SampledFrom(oddContentRanges).Draw(t, "cr")
+			r.Star, r.P206 = false, false
+		}
 		return r
 	}
 	r.Head = pick(t, "head", 20, 21, 60, 60, 200, 300, 4096, 5000)
@@ -246,6 +266,14 @@ func genResp(t *rapid.T, cfg *Config, scale int, e2e bool) Resp {
 		r.Splits = append(r.Splits, sz)
 	}
 	return r
+}
+
+// oddContentRanges: Content-Range values of 206 responses that are not "bytes a-b/n".
+var oddContentRanges = []string{
+	"bytes */1000", "bytes 5/10", "bytes */*", "<empty>", "<missing>", "bytes=0-5/10", "items 0-5/10", "bytes 0-5",
+	"bytes 99999999999999999999-99999999999999999999/99999999999999999999", "bytes 0-99999999999999999999/5",
+	"  bytes 3-9/20  ", "BYTES 0-5/10", "Bytes 2-5/10", "bytes", "bytes ", "bytes -", "bytes -/", "bytes -5/10", "bytes 5-/10",
+	"bytes 5--6/10", "-", "/", "bytes/", "bytes 1-2/3/4", "bytes\t0-5/10", "bytes 0-5/", "bytes 0 - 5 / 10", "x bytes 3-5/10",
 }
 
 // genPendingPair draws two responses for one keep-alive connection: a matching
@@ -301,9 +329,37 @@ func genHistory(t *rapid.T, level string, maxSteps int, scales []int) Case {
 	connCfg := map[int]*Config{}
 	var open []int
 	next := 0
+	var retired []Shape
+	retire := func(old, neu *Config) {
+		// patterns the new configuration does not name any more; a pattern named again is back
+		var keep []Shape
+		for _, sh := range retired {
+			named := false
+			for _, n := range neu.Shapes {
+				named = named || n.Pat == sh.Pat
+			}
+			if !named {
+				keep = append(keep, sh)
+			}
+		}
+		retired = keep
+		if old == nil {
+			return
+		}
+		for _, sh := range old.Shapes {
+			named := false
+			for _, n := range neu.Shapes {
+				named = named || n.Pat == sh.Pat
+			}
+			if !named {
+				retired = append(retired, sh)
+			}
+		}
+	}
 	post := func(cfg Config) {
 		c.Steps = append(c.Steps, Step{Op: "post", Cfg: &cfg})
 		if cfg.Valid() {
+			retire(active, &cfg)
 			active = &cfg
 		}
 	}
@@ -335,10 +391,14 @@ func genHistory(t *rapid.T, level string, maxSteps int, scales []int) Case {
 					continue
 				}
 			}
-			r := genResp(t, connCfg[id], scale, level == "e2e")
+			var gone []Shape
+			if connCfg[id] == active {
+				gone = retired
+			}
+			r := genResp(t, connCfg[id], scale, level == "e2e", gone...)
 			c.Steps = append(c.Steps, Step{Op: "resp", Conn: id, R: &r})
 			resps++
-			if r.ReqClose {
+			if r.ReqClose || r.OClose {
 				// the proxy closes the connection after this response
 				for j := range open {
 					if open[j] == id {
@@ -376,6 +436,7 @@ func genHistory(t *rapid.T, level string, maxSteps int, scales []int) Case {
 				open = append(open, id)
 				next++
 				if cfg.Valid() {
+					retire(active, &cfg)
 					active = &cfg
 				}
 				// aimed at the new configuration's offsets, which must not apply to it
@@ -421,7 +482,8 @@ func genHistory(t *rapid.T, level string, maxSteps int, scales []int) Case {
 				// firing inside it leaves a half-answered CONNECT that only a timeout can tell
 				// (same defect as a cut tunnel, twelve seconds dearer)
 				if s := buildModel(*connCfg[id], 0).byPat(a.Pat); s != nil && len(s.acts) > 0 && s.acts[0].at-int64(a.Body) > 256 {
-					c.Steps = append(c.Steps, Step{Op: "resp", Conn: id, R: &a}, Step{Op: "tunnel", Conn: id, R: &Resp{Body: b.Body, Seed: b.Seed}})
+					op := pick(t, "takeover", "tunnel", "hijack")
+					c.Steps = append(c.Steps, Step{Op: "resp", Conn: id, R: &a}, Step{Op: op, Conn: id, R: &Resp{Body: b.Body, Seed: b.Seed}})
 				}
 			}
 		}
@@ -514,6 +576,7 @@ func analyze(c Case) map[string]bool {
 	var active *cfgM
 	epoch := 0
 	conns := map[int]*cfgM{}
+	everNamed := map[int]bool{}
 	pending := map[int]bool{} // connection -> its last response left an action of its shape pending
 	look := func(id int, r Resp, par bool) {
 		cfg, ok := conns[id]
@@ -537,6 +600,12 @@ func analyze(c Case) map[string]bool {
 		}
 		if r.ReqClose && r.Pat >= 0 && cfg.byPat(r.Pat) != nil && cfg == active {
 			cl["matching-request-asks-close"] = true
+		}
+		if r.CR != "" {
+			cl["odd-content-range"] = true
+		}
+		if r.Pat >= 0 && cfg == active && cfg.byPat(r.Pat) == nil && everNamed[r.Pat] {
+			cl["pattern-no-longer-configured"] = true
 		}
 		if r.LClose && r.Pat >= 0 && cfg.byPat(r.Pat) != nil && cfg == active && r.Start >= 0 {
 			cl["listener-closed-during-matching-response"] = true
@@ -610,9 +679,9 @@ func analyze(c Case) map[string]bool {
 	}
 	for _, st := range c.Steps {
 		switch st.Op {
-		case "tunnel":
+		case "tunnel", "hijack":
 			if pending[st.Conn] {
-				cl["tunnel-after-pending-action"] = true
+				cl[st.Op+"-after-pending-action"] = true
 			}
 		case "post":
 			if st.Cfg == nil {
@@ -625,6 +694,9 @@ func analyze(c Case) map[string]bool {
 				}
 			}
 			if st.Cfg.Valid() {
+				for _, sh := range st.Cfg.Shapes {
+					everNamed[sh.Pat] = true
+				}
 				epoch++
 				if active != nil {
 					cl["config-replaced"] = true
@@ -796,6 +868,49 @@ func fixedCases() []Case {
 			{Op: "resp", Conn: 1, R: &Resp{Pat: 1, Body: 3000, Head: 50, Seed: 65, Splits: []int{1000}}},
 		}})
 	}
+	// a configuration replaces the previous one, it is not merged into it: patterns it does not name,
+	// and everything after the empty configuration, are unshaped on connections accepted afterwards
+	for _, level := range []string{"conn", "e2e"} {
+		a := Config{Shapes: []Shape{{Pat: 1, Var: 1, Closes: []CloseAct{{At: 300, N: -1}}}, {Pat: 2, Closes: []CloseAct{{At: 100, N: -1}}}}}
+		b := Config{Shapes: []Shape{{Pat: 2, Closes: []CloseAct{{At: 400, N: -1}}}}}
+		none := Config{}
+		out = append(out, Case{Level: level, Steps: []Step{
+			{Op: "post", Cfg: &a}, {Op: "open", Conn: 0}, {Op: "post", Cfg: &b}, {Op: "open", Conn: 1},
+			{Op: "resp", Conn: 1, R: &Resp{Pat: 1, Body: 1000, Head: 60, Seed: 70}},
+			{Op: "resp", Conn: 1, R: &Resp{Pat: 2, Body: 1000, Head: 60, Seed: 71}},
+			{Op: "post", Cfg: &none}, {Op: "open", Conn: 2},
+			{Op: "resp", Conn: 2, R: &Resp{Pat: 2, Body: 1000, Head: 60, Seed: 72}},
+			{Op: "resp", Conn: 2, R: &Resp{Pat: 1, Body: 1000, Head: 60, Seed: 73}},
+		}})
+	}
+	// 206 answers whose Content-Range is not "bytes a-b/n" on a URL with a close action at 10: the
+	// proxy survives them; those without any readable first-byte position arrive complete
+	odd := Config{Shapes: []Shape{{Pat: 1, Var: 1, Closes: []CloseAct{{At: 10, N: -1}}}}}
+	oc := Case{Level: "e2e", Steps: []Step{{Op: "post", Cfg: &odd}}}
+	for i, cr := range oddContentRanges {
+		oc.Steps = append(oc.Steps, Step{Op: "open", Conn: i}, Step{Op: "resp", Conn: i, R: &Resp{Pat: 1, Body: 200, Seed: uint64(100 + i), CR: cr}})
+	}
+	out = append(out, oc)
+	// a request modifier hijacks the session on a connection that has just served a matching response
+	// with actions still ahead (and, as a control, on a fresh connection)
+	hj := Config{Shapes: []Shape{{Pat: 1, Var: 1, Closes: []CloseAct{{At: 5000, N: -1}}, Halts: []Halt{{At: 3000, Dur: 30, N: -1}}}}}
+	for _, level := range []string{"e2e", "mitm"} {
+		out = append(out, Case{Level: level, Steps: []Step{
+			{Op: "post", Cfg: &hj}, {Op: "open", Conn: 0}, {Op: "open", Conn: 1},
+			{Op: "hijack", Conn: 1, R: &Resp{Body: 20000, Seed: 74}},
+			{Op: "resp", Conn: 0, R: &Resp{Pat: 1, Body: 500, Seed: 75}},
+			{Op: "hijack", Conn: 0, R: &Resp{Body: 20000, Seed: 76}},
+		}})
+	}
+	// head accounting when the origin itself marks the response "Connection: close" (also together with
+	// the client asking for it, and with an empty body)
+	ocl := Config{Shapes: []Shape{{Pat: 1, Var: 1, Closes: []CloseAct{{At: 200, N: -1}}}}}
+	out = append(out, Case{Level: "e2e", Steps: []Step{
+		{Op: "post", Cfg: &ocl}, {Op: "open", Conn: 0}, {Op: "open", Conn: 1}, {Op: "open", Conn: 2},
+		{Op: "resp", Conn: 0, R: &Resp{Pat: 1, Body: 500, Seed: 77, OClose: true}},
+		{Op: "resp", Conn: 1, R: &Resp{Pat: 1, Body: 500, Seed: 78, OClose: true, ReqClose: true}},
+		{Op: "resp", Conn: 2, R: &Resp{Pat: 1, Body: 0, Seed: 79, OClose: true}},
+	}})
 	// a CONNECT on a connection that has just served a matching response with actions still ahead:
 	// the tunnel's bytes match no shape; and the control: a tunnel on a fresh connection
 	tun := Config{Shapes: []Shape{{Pat: 1, Var: 1, Closes: []CloseAct{{At: 5000, N: -1}}, Halts: []Halt{{At: 3000, Dur: 30, N: -1}}}}}
